@@ -72,7 +72,9 @@ contract('gnpy.core.network.set_amplifier_voa', props=['C09', 'C08'],
          modifies=[('amp.out_voa', real()), ('amp.in_voa', real()), ('amp.delta_p', opt(real())), ('amp.effective_gain', real())])
 
 NODE_E = AMPN
-contract('gnpy.core.network.compute_gain_power_and_tilt_target', props=['C09', 'C17'],
+contract('gnpy.core.network.compute_gain_power_and_tilt_target', props=['C09', 'C17', 'C10'],
+         # C10 rests on the gain and the total output power that the selection is asked for
+         prop_clauses={'C10': ['budget', 'power_target', 'voa_reported']},
          params={'node': AMPN, 'prev_node': obj('Fiber'), 'next_node': obj('Fiber'), 'power_mode': boolean(), 'prev_voa': real(),
                  'prev_dp': real(), 'pref_total_db': real(), 'network': obj('<ns>'), 'equipment': EQPT_SPAN,
                  'deviation_db': real(), 'tilt_target': real()}, spec=SPEC_NET,
@@ -385,3 +387,38 @@ contract('gnpy.core.network.set_egress_amplifier', name='gnpy.core.network.set_e
          requires=[('degree_has_a_power_target', 'node.uid in this_node.per_degree_pch_out_dbm')],
          ensures=[('offset_of_the_degree_target', "prev_dp['C'] == this_node.per_degree_pch_out_dbm[node.uid] - pref_ch_db and dp['C'] == prev_dp['C']")],
          modifies=['dp[*]', 'prev_dp[*]', 'voa[*]', 'prev_voa[*]', 'pref_total_db[*]'])
+
+# ---------------------------------------------------------------- multiband amplifier, one band: the models offered to the selection of
+# a band amplifier are exactly the members of the (pre)selected group whose own band covers that design band, and the selection is
+# asked for this band's own figures (real body of the band loop of set_egress_amplifier; the selection itself records what it gets)
+def _rec_set_one(it, a, k):
+    g = it.p.live['equipment']['ghost_call']
+    for nm, v in zip(('amp', 'prev_node', 'next_node', 'power_mode', 'prev_voa', 'prev_dp', 'pref_ch_db', 'pref_total_db', 'network',
+                      'restrictions', 'equipment', 'verbose'), a):
+        g[nm] = v
+    g.update(k)
+    import z3 as _z3
+    from pyvc.vals import SV as _SV, fresh as _fresh
+    return (_SV(_fresh('dp_band', _z3.RealSort())), _SV(_fresh('voa_band', _z3.RealSort())))
+
+
+OV_BAND = {('gnpy.core.network', 'set_one_amplifier'): lambda it: _Builtin('selected', _rec_set_one)}
+contract('gnpy.core.network.set_egress_amplifier', name='gnpy.core.network.set_egress_amplifier[multiband amplifier, one band]', loop=4,
+         loop_returns=['dp', 'voa'], props=['C10'], use_at_calls=False, overrides=OV_BAND,
+         params={'band_name': const('C'), 'amp': obj('Edfa', uid=string()), 'restrictions_edfa': const(['amp_C', 'amp_L']),
+                 'prev_node': obj('Fiber'), 'next_node': obj('Fiber'), 'power_mode': boolean(), 'pref_ch_db': real(),
+                 'prev_voa': dct_k({'C': real(), 'L': real()}), 'prev_dp': dct_k({'C': real(), 'L': real()}),
+                 'pref_total_db': dct_k({'C': real(), 'L': real()}), 'deviation_db': dct_k({'C': real(), 'L': real()}),
+                 'tilt_target': dct_k({'C': real(), 'L': real()}), 'network': obj('<ns>'), 'verbose': boolean(),
+                 '_design_bands': dct_k({'C': dct(f_min=real(), f_max=real()), 'L': dct(f_min=real(), f_max=real())}),
+                 'dp': dct(), 'voa': dct(),
+                 'equipment': dct(Edfa=_MBLIB, ghost_call=dct())},
+         let={'asked': "equipment['ghost_call']", 'lib': "equipment['Edfa']", 'band': "_design_bands['C']"},
+         ensures=[('offered_models_cover_the_design_band',
+                   "iff('amp_C' in asked['restrictions'], lib['amp_C'].f_min <= band['f_min'] and lib['amp_C'].f_max >= band['f_max']) and "
+                   "iff('amp_L' in asked['restrictions'], lib['amp_L'].f_min <= band['f_min'] and lib['amp_L'].f_max >= band['f_max'])"),
+                  ('only_members_of_the_group', "all(n == 'amp_C' or n == 'amp_L' for n in asked['restrictions'])"),
+                  ('this_bands_own_figures', "asked['amp'] is amp and asked['prev_voa'] == prev_voa['C'] and asked['prev_dp'] == prev_dp['C'] and "
+                                             "asked['pref_total_db'] == pref_total_db['C'] and asked['deviation_db'] == deviation_db['C'] and "
+                                             "asked['tilt_target'] == tilt_target['C'] and asked['pref_ch_db'] == pref_ch_db")],
+         modifies=["equipment['ghost_call'][*]", 'dp[*]', 'voa[*]'])
